@@ -287,7 +287,9 @@ def math_call(s):
 
 
 def call_class(s):
-    """'smooth' | 'fabs' | 'sign' | 'unknown' for a Call node."""
+    """'smooth' | 'fabs' | 'sign' | 'log2' | 'unknown' for a Call node.  'log2' is math.log with an
+    explicit base: not in the derivative table, but a function Python's math really has with that
+    arity, so its true derivative is known to the oracle."""
     mc = math_call(s)
     if mc is not None:
         name, args = mc
@@ -297,6 +299,8 @@ def call_class(s):
             return "fabs"
         if name == "copysign" and len(args) == 2 and args[0][0] == "int":
             return "sign"
+        if name == "log" and len(args) == 2:
+            return "log2"
     return "unknown"
 
 # }}}
@@ -431,6 +435,14 @@ class DualEval:
         if cls == "sign":
             uv, ud = self.ev(args[1])
             return fld.copysign(args[0][1], uv), self.zeros()      # piecewise constant
+        if cls == "log2":
+            # log_b(u) = ln u / ln b;  d = u'/(u ln b) - ln u * b' / (b ln(b)^2)
+            uv, ud = self.ev(args[0])
+            bv, bd = self.ev(args[1])
+            lu, lb = fld.log(uv), fld.log(bv)
+            if lb.is_zero():
+                raise Skip("pole")
+            return lu / lb, [du / (uv * lb) - lu * db / (bv * lb * lb) for du, db in zip(ud, bd)]
         uv, ud = self.ev(args[0])
         val = value_of(fld, name, uv)
         dv = derivative_of(fld, name, uv)
@@ -449,9 +461,19 @@ class _MathNS:
         self._fld = fld
 
     def __getattr__(self, name):
+        if name == "log":
+            return self._log
         if name in _MathNS.NAMES:
             return getattr(self._fld, name)
         raise AttributeError(name)
+
+    def _log(self, u, base=None):
+        if base is None:
+            return self._fld.log(u)
+        lb = self._fld.log(base)
+        if lb.is_zero():
+            raise ZeroDivisionError("log base 1")
+        return self._fld.log(u) / lb
 
 
 class _Agg:
